@@ -4,7 +4,12 @@
 //! listeners (polling them a little in between). Oracles: every steady listener yields every accepted event exactly once, in
 //! each producer's order; a churned listener yields, per producer, one contiguous run of that producer's accepted events
 //! without repeats; afterwards (pooled kinds) the emptied channel accepts BUFFER_SIZE events again.
-//! Every anomaly is attributed causally: did the affected event's send overlap a create/drop-listener operation?
+//! In some runs there are two churn threads (so that a listener can be created while another one is still being dropped) and the churned
+//! listeners poll until they find nothing before they are dropped: such a listener must have yielded every event whose send started after its
+//! creation returned and returned before that final poll started.
+//! Every anomaly is attributed causally: did the affected event's send overlap a create-listener operation, or a drop-listener operation up to
+//! the point where the live-listener list had been rewritten (whatever a drop does after that -- nothing on the unchanged tree -- concerns a
+//! listener that is no longer registered and must not disturb anybody)?
 
 use crate::chan::{self, Kind};
 use crate::common::{draw_strategy, file_violation, run_loop, Acc, Args};
@@ -17,12 +22,12 @@ use std::sync::{atomic::{AtomicU32, Ordering::SeqCst}, Arc, Mutex};
 use std::task::Poll;
 
 #[derive(Clone, Debug)]
-pub struct Cfg { pub kind: Kind, pub n: usize, pub m: usize, pub steady: usize, pub entries: Vec<Entry>, pub per_prod: u32, pub churns: u32, pub churn_polls: u32, pub hold: Hold }
+pub struct Cfg { pub kind: Kind, pub n: usize, pub m: usize, pub steady: usize, pub entries: Vec<Entry>, pub per_prod: u32, pub churns: u32, pub churn_polls: u32, pub hold: Hold, pub churners: usize, pub drain: bool }
 impl Cfg {
     pub fn json(&self) -> J {
         J::obj().with("kind", J::s(self.kind.name())).with("N", J::i(self.n as i64)).with("M", J::i(self.m as i64)).with("steady_listeners", J::i(self.steady as i64))
             .with("producers", J::Arr(self.entries.iter().map(|e| J::s(e.name())).collect())).with("events_per_producer", J::i(self.per_prod as i64))
-            .with("listeners_created_and_dropped", J::i(self.churns as i64)).with("polls_per_churned_listener", J::i(self.churn_polls as i64)).with("hold", J::s(format!("{:?}", self.hold)))
+            .with("listeners_created_and_dropped", J::i(self.churns as i64)).with("polls_per_churned_listener", J::i(self.churn_polls as i64)).with("churn_threads", J::i(self.churners as i64)).with("churned_listeners_poll_until_empty_before_the_drop", J::Bool(self.drain)).with("hold", J::s(format!("{:?}", self.hold)))
     }
 }
 
@@ -42,11 +47,22 @@ pub fn draw_cfg(rng: &mut Rng, only: Option<&str>, lane: Lane) -> Cfg {
     if kind.never_rejects() && n > 0 { while per_prod as usize * nprod > n { if per_prod > 1 { per_prod -= 1 } else { nprod -= 1 } } }
     let mut es = entries_for(kind); es.retain(|e| *e != Entry::SendAsyncSuspended);
     let entries: Vec<Entry> = (0..nprod).map(|_| *rng.pick(&es)).collect();
-    Cfg { kind, n, m, steady, entries, per_prod, churns: 1 + rng.below(if lane == Lane::Free { 12 } else { 3 }) as u32, churn_polls: rng.below(4) as u32, hold: Hold::Release }
+    let churners = if steady + 2 <= m && rng.chance(1, 3) { 2 } else { 1 };
+    let drain = rng.chance(1, 2);
+    Cfg { kind, n, m, steady, entries, per_prod, churns: 1 + rng.below(if lane == Lane::Free { 12 } else { 3 }) as u32, churn_polls: rng.below(4) as u32, hold: Hold::Release, churners, drain }
 }
 
 #[derive(Default)]
-struct ChurnLog { spans: Mutex<Vec<(u64, u64)>>, listeners: Mutex<Vec<Vec<u64>>> }
+struct ChurnLog {
+    /// whole create / drop operations (call, return)
+    spans: Mutex<Vec<(u64, u64)>>,
+    /// the part of each operation that can legitimately interfere with a concurrent fan-out: a whole create; a drop up to the end of the list rewrite
+    windows: Mutex<Vec<(u64, u64)>>,
+    listeners: Mutex<Vec<Vec<u64>>>,
+    /// per churned listener that polled until empty: (creation returned, final poll-until-empty started, index into `listeners`)
+    lifetimes: Mutex<Vec<(u64, u64, usize)>>,
+}
+fn is_sm_site(s: u32) -> bool { matches!(s, rv::SM_DROPPED_AFTER_WAKER | rv::SM_DROPPED_AFTER_COUNTERS | rv::SM_DROPPED_AFTER_VACANT | rv::SM_SYNC_LOCKED | rv::SM_SYNC_EACH_ENTRY | rv::SM_SYNC_EACH_SENTINEL) }
 
 pub fn one_run(cfg: &Cfg, rc: &RunCfg, acc: &mut Acc) -> (Option<J>, u64, bool) {
     let ch = chan::make(cfg.kind, cfg.n, cfg.m, false).expect("instantiation");
@@ -56,7 +72,7 @@ pub fn one_run(cfg: &Cfg, rc: &RunCfg, acc: &mut Acc) -> (Option<J>, u64, bool) 
     let plogs: Vec<Arc<ProdLog>> = cfg.entries.iter().map(|_| Arc::new(ProdLog::default())).collect();
     let churn = Arc::new(ChurnLog::default());
     let done = Arc::new(AtomicU32::new(0));
-    let n_wait = cfg.entries.len() as u32 + 1;
+    let n_wait = cfg.entries.len() as u32 + cfg.churners as u32;
     let mut bodies: Vec<Body> = Vec::new();
     for (s, l) in strms.into_iter().zip(clogs.iter()) { let d = done.clone(); bodies.push(polling_consumer_body(s, cfg.hold, l.clone(), Arc::new(move || d.load(SeqCst) == n_wait))) }
     let shift = if cfg.per_prod < 250 { 8 } else { 12 };
@@ -66,21 +82,40 @@ pub fn one_run(cfg: &Cfg, rc: &RunCfg, acc: &mut Acc) -> (Option<J>, u64, bool) 
         let d = done.clone();
         bodies.push(Box::new(move || { let _g = OnExit(Some(move || { d.fetch_add(1, SeqCst); })); inner() }));
     }
-    {
+    for _churner in 0..cfg.churners {
         let (ch, d, churn, cfg2, lane) = (ch.clone(), done.clone(), churn.clone(), cfg.clone(), rc.lane);
         bodies.push(Box::new(move || {
             let _g = OnExit(Some(move || { d.fetch_add(1, SeqCst); }));
             let w = chan::noop_waker();
             for _ in 0..cfg2.churns {
                 let t0 = stamp(); let mut s = ch.create_stream(); let t1 = stamp();
-                churn.spans.lock().unwrap().push((t0, t1));
+                churn.spans.lock().unwrap().push((t0, t1)); churn.windows.lock().unwrap().push((t0, t1));
                 sched::op_done();
-                if lane == Lane::Free { let _ = s.poll(&w); }
                 let mut got = Vec::new();
+                if lane == Lane::Free { if let Poll::Ready(Some(it)) = s.poll(&w) { got.push(it.id); drop(it) } }
                 for _ in 0..cfg2.churn_polls { if let Poll::Ready(Some(it)) = s.poll(&w) { got.push(it.id); drop(it) } sched::op_done() }
+                let mut lifetime = None;
+                if cfg2.drain {
+                    let td = stamp();
+                    let mut polls = 0;
+                    loop { polls += 1; match s.poll(&w) { Poll::Ready(Some(it)) => { got.push(it.id); drop(it); sched::op_done() } _ => break } if polls > 100_000 { break } }
+                    lifetime = Some((t1, td));
+                }
+                sched::site_log_start();
                 let t2 = stamp(); drop(s); let t3 = stamp();
-                churn.spans.lock().unwrap().push((t2, t3));
-                churn.listeners.lock().unwrap().push(got);
+                let log = sched::site_log_take(); sched::site_log_stop();
+                // the drop may interfere with a concurrent fan-out until the live-listener list has been rewritten: up to the first hook site hit after the last
+                // streams-manager site of the operation (the whole operation if nothing follows, as on the unchanged tree)
+                // (the rewrite ends with the release of the streams lock, whose own site -- SYNC_UNLOCK, hit before the releasing store -- still belongs to it)
+                let wend = match log.iter().rposition(|(site, _)| is_sm_site(*site)) {
+                    Some(i) => { let j = if log.get(i + 1).map(|x| x.0) == Some(rv::SYNC_UNLOCK) { i + 2 } else { i + 1 }; if j < log.len() { log[j].1 } else { t3 } }
+                    None => t3,
+                };
+                churn.spans.lock().unwrap().push((t2, t3)); churn.windows.lock().unwrap().push((t2, wend));
+                let mut ls = churn.listeners.lock().unwrap();
+                if let Some((a, b)) = lifetime { churn.lifetimes.lock().unwrap().push((a, b, ls.len())) }
+                ls.push(got);
+                drop(ls);
                 sched::op_done();
             }
         }));
@@ -89,7 +124,8 @@ pub fn one_run(cfg: &Cfg, rc: &RunCfg, acc: &mut Acc) -> (Option<J>, u64, bool) 
     acc.account(&rep);
     if rc.trace { sched::dump_trace(&rep) }
     if rep.inconclusive() { if acc.notes.len() < 10 { acc.notes.push(format!("inconclusive {:?}: {}", rep.outcome, cfg.json().to_string())) } std::mem::forget(ch); return (None, rep.sched_hash, true) }
-    let spans = churn.spans.lock().unwrap().clone();
+    let spans = churn.windows.lock().unwrap().clone();
+    { let whole = churn.spans.lock().unwrap(); if whole.iter().zip(spans.iter()).any(|(a, b)| a.1 != b.1) { acc.count("drop_operations_that_went_on_after_the_list_rewrite", 1) } }
     // (id -> (call, return)) of the accepted attempt
     let mut send_span: HashMap<u64, (u64, u64)> = HashMap::new();
     let mut accepted: Vec<u64> = Vec::new();
@@ -124,7 +160,25 @@ pub fn one_run(cfg: &Cfg, rc: &RunCfg, acc: &mut Acc) -> (Option<J>, u64, bool) 
         for (p, l) in plogs.iter().enumerate() {
             let mine: Vec<u64> = l.accepted.lock().unwrap().clone();
             let idx: Vec<usize> = got.iter().filter(|g| (**g >> shift) as usize == p + 1).filter_map(|g| mine.iter().position(|m| m == g)).collect();
-            for w in idx.windows(2) { if w[1] != w[0] + 1 { let culprit = mine[(w[0] + 1).min(mine.len() - 1)]; anomalies.push(("churned_gap".into(), overlaps_churn(&culprit) || overlaps_churn(&mine[w[1].min(mine.len() - 1)]), format!("churned listener #{ci} yielded producer {}'s events with a gap / out of order around event {culprit}", p + 1))) } }
+            // (explained by churn if any event from the one before the gap -- it may be a leftover published into the previous owner's queue while that
+            //  listener was being dropped -- to the one after it was sent while a create / drop operation was in its interfering part)
+            for w in idx.windows(2) { if w[1] != w[0] + 1 { let culprit = mine[(w[0] + 1).min(mine.len() - 1)]; let (lo, hi) = (w[0].min(w[1]), w[0].max(w[1]).min(mine.len() - 1)); anomalies.push(("churned_gap".into(), (lo..=hi).any(|i| overlaps_churn(&mine[i])), format!("churned listener #{ci} yielded producer {}'s events with a gap / out of order around event {culprit}", p + 1))) } }
+        }
+    }
+    // a churned listener that polled until empty: every event whose send lies entirely between "creation returned" and "the final polling started"
+    if complete {
+        let ls = churn.listeners.lock().unwrap();
+        for (born, drain_start, li) in churn.lifetimes.lock().unwrap().iter() {
+            let got: HashSet<u64> = ls[*li].iter().copied().collect();
+            let mut inside = 0u64;
+            for a in &accepted {
+                let (sa, sb) = send_span[a];
+                if sa > *born && sb < *drain_start {
+                    inside += 1;
+                    if !got.contains(a) { anomalies.push(("churned_missed".into(), overlaps_churn(a), format!("churned listener #{li} (polled until empty before it was dropped) never yielded event {a}, whose send started after the listener's creation had returned and returned before that final polling started"))) }
+                }
+            }
+            acc.count("sends_entirely_within_the_lifetime_of_a_churned_listener_that_polled_until_empty", inside);
         }
     }
     // storage: after everything was consumed and released the pooled kinds accept BUFFER_SIZE events again
@@ -148,7 +202,7 @@ pub fn run(args: &Args, acc: &mut Acc) { run_loop(args, acc, single) }
 fn single(args: &Args, acc: &mut Acc, seed: u64, verbose: bool) {
     let mut rng = Rng::new(seed);
     let cfg = draw_cfg(&mut rng, args.only.as_deref(), args.lane);
-    let nthreads = cfg.steady + cfg.entries.len() + 1;
+    let nthreads = cfg.steady + cfg.entries.len() + cfg.churners;
     let mut rc = match args.lane {
         Lane::Ser => RunCfg::ser(seed, draw_strategy(&mut rng, nthreads, PAUSE_SITES, 300)),
         Lane::Free => RunCfg::free(seed, rng.below(3) as u8),
